@@ -280,3 +280,39 @@ def check_suppression(check, an: Analysis, rule: str):
                        '_is_suppressed(x) is false for a CancelScope that is none of this '
                        'scope\'s own signals %s: %s' % (own, sorted(map(str, truths))),
                        analysed=len(paths))
+
+
+def check_disable_interrupts(check, an: Analysis, rule: str):
+    """
+    whatever class the scope has, every way through its ``_disable_interrupts`` (the first
+    step of closing) marks the scope closed for new tasks and withdraws each signal the
+    scope created
+    """
+    for recv in scope_receivers(an):
+        callee = Callee(an.p.find_method(recv, '_disable_interrupts'), recv)
+        own = own_signals(an, recv)
+        label = recv.rsplit('.', 1)[-1]
+        verdict, n, bad = True, 0, None
+        for path in an.paths(callee):
+            if not path.normal:
+                continue
+            n += 1
+            closed = any(e.kind == 'store' and e.get('path') == 'self._interruptable'
+                         and isinstance(e.data.get('value'), ast.Constant)
+                         and e.data['value'].value is False for e in path.events)
+            withdrawn = set()
+            for index, event in enumerate(path.events):
+                node = event.node
+                if event.kind not in ('call', 'enter') or not isinstance(node, ast.Call) or \
+                        not isinstance(node.func, ast.Attribute):
+                    continue
+                if node.func.attr == 'revoke':
+                    withdrawn.add(rules.value_text(path, index, node.func.value))
+                elif node.func.attr == '__unsubscribe__':
+                    withdrawn.update(rules.value_text(path, index, a) for a in node.args)
+            if not closed or not {'self.%s' % attr for attr in own} <= withdrawn:
+                verdict, bad = False, bad or path
+        check.instance(rule, '%s._disable_interrupts' % label, verdict and n > 0 and bool(own),
+                       where_fn(callee.fn), 'every way through marks the scope as closed for '
+                       'new tasks and withdraws its own signals %s (%d paths)' % (own, n),
+                       path=rules.path_lines(bad) if bad else None, analysed=n)
